@@ -658,3 +658,30 @@ Proof.
   - intros H. destruct (xaccepts_sound c Polling tr H) as (ls & x & Hp & Ho & _ & Hf). eauto.
   - intros (ls & x & Hp & Ho & Hf). subst tr. eapply xaccepts_complete_polling; eauto.
 Qed.
+
+(* ------------------------------------------------------------------------ *)
+(* why giving up is never right with this reader                               *)
+
+(* whenever the reader thread is dead and the consumer is still collecting, the marker is in the
+   queue: a timed get cannot time out after the reader's death, so `is_alive() = False` observed
+   after a time-out always means that the queue has been filled in between (the race), and a
+   consumer that samples is_alive() BEFORE its timed get never has a reason to give up *)
+Lemma dead_reader_marker_queued : forall c s k acc,
+  reach c s -> pp s = PDone -> cc s = CCollect k acc -> sentinels (q s) = 1 /\ q s <> [].
+Proof.
+  intros c s k acc Hr Hp Hc. pose proof (reach_inv c s Hr) as Hi.
+  pose proof (inv_sentinels c s Hi) as E. pose proof (inv_pc c s Hi) as Hpc.
+  rewrite Hc in Hpc. destruct Hpc as [Hd _].
+  unfold sentinel_count in E. rewrite Hd, Hp in E. simpl in E.
+  split; [lia|]. intros Eq. rewrite Eq in E. simpl in E. lia.
+Qed.
+
+Lemma no_timeout_after_death : forall c m x x',
+  reach c (base x) -> pp (base x) = PDone -> ~ xstep c m (Some XTimeout) x x'.
+Proof.
+  intros c m x x' Hr Hp H.
+  assert (Hq : q (base x) = [] /\ exists k acc, cc (base x) = CCollect (S k) acc).
+  { inversion H; subst; simpl; try discriminate; eauto. destruct l; discriminate. }
+  destruct Hq as [Hq (k & acc & Hc)].
+  destruct (dead_reader_marker_queued c (base x) (S k) acc Hr Hp Hc) as [_ Hn]. contradiction.
+Qed.
